@@ -9,11 +9,16 @@
    length through any handles (each with its Arrow-schema cache keyed by schema_id), every record batch,
    every commit outcome, every behaviour `conv` of pyarrow's conversion.
 
+   Handle provenance (Model/SchemaOpen.v over Gen/GenOpen.v, the actions of create_table / load_table /
+   Table.__init__ REGENERATED from the source): every way of obtaining each handle, with every schema argument,
+   re-bound or alive side by side, interleaved with the appends in any order.
+
    C11_exact_partial is PARTIAL: it assumes conv_sound (pyarrow stores a value the library admits as
    `canon`, or raises) -- a statement about pyarrow, validated by the harness on every run. *)
 From Coq Require Import ZArith QArith List Bool.
 Require Import DS.Model.Value DS.Gen.GenPrune DS.Model.Prune DS.Gen.GenSchema DS.Model.Schema DS.Model.SchemaTx.
-Require Import DS.Proofs.PruneProofs DS.Proofs.SchemaProofs DS.Proofs.SchemaTxProofs.
+Require Import DS.Model.OpenBase DS.Gen.GenOpen DS.Model.SchemaOpen.
+Require Import DS.Proofs.PruneProofs DS.Proofs.SchemaProofs DS.Proofs.SchemaTxProofs DS.Proofs.SchemaOpenProofs.
 Import ListNotations.
 Open Scope Z_scope.
 
@@ -173,6 +178,68 @@ Theorem C11_tx_history_scans : forall (conv : atype -> pyval -> option pyval) (t
 Proof. exact tx_history_scans. Qed.
 Print Assumptions C11_tx_history_scans.
 
+(* ================= handle provenance (Model/SchemaOpen.v): handles obtained by load_table, by create_table
+   with ANY schema argument on the existing table, by Table(...); re-bound, or several alive at once ================= *)
+
+(* What the source does when a handle is obtained (regenerated on every run): for every opener, no action derives
+   an Arrow layout from the caller's unvalidated schema argument into the new handle's cache. *)
+Theorem C11_open_derives_only_persisted : forall o : opener, forallb safe_action (actions_of o) = true.
+Proof. exact open_actions_safe. Qed.
+Print Assumptions C11_open_derives_only_persisted.
+
+(* Obtaining a handle -- whatever the opening code does to the handle -- leaves the schema, the snapshot list,
+   the stored files and every scan unchanged: the schema argument of create_table is not applied to a table
+   that exists. *)
+Theorem C11_open_no_trace : forall (acts : list oaction) (w : world) (h : Z) (arg : option ischema),
+  let w' := open_with acts w h arg in
+  w_schema w' = w_schema w /\ w_snaps w' = w_snaps w /\ w_store w' = w_store w
+  /\ full_scan w' = full_scan w /\ (forall X fs, filtered_scan X fs w' = filtered_scan X fs w).
+Proof. exact open_no_trace. Qed.
+Print Assumptions C11_open_no_trace.
+
+(* Handle provenance is irrelevant: in ANY history of openings (any opener, any schema argument, any handle name,
+   new or re-bound) and append attempts, every append has the outcome, and the table reaches the state -- schema,
+   snapshots with their files, stored files, full and filtered scans --, of the same history with the openings
+   erased.  So C11_history_scans, C11_history_filter, C11_history_bounds_*, C11_reject_no_trace and
+   C11_exact_partial hold verbatim of histories with openings. *)
+Theorem C11_handle_provenance_irrelevant : forall (conv : atype -> pyval -> option pyval) (ts : ischema) (xs : list hevent),
+  let w := hrun conv (init (Some ts)) xs in
+  let w0 := run conv (init (Some ts)) (appends xs) in
+  houtcomes conv (init (Some ts)) xs = run_outcomes conv (init (Some ts)) (appends xs)
+  /\ w_schema w = w_schema w0 /\ w_snaps w = w_snaps w0 /\ w_store w = w_store w0
+  /\ full_scan w = full_scan w0
+  /\ (forall X fs, filtered_scan X fs w = filtered_scan X fs w0).
+Proof. exact handles_irrelevant. Qed.
+Print Assumptions C11_handle_provenance_irrelevant.
+
+(* Spelled out: after any such history full scans do not raise, ... *)
+Theorem C11_handles_history_scans : forall (conv : atype -> pyval -> option pyval) (ts : ischema) (xs : list hevent),
+  scan_ok (current (hrun conv (init (Some ts)) xs)) = true /\ full_scan (hrun conv (init (Some ts)) xs) <> None.
+Proof. exact handles_history_scans. Qed.
+Print Assumptions C11_handles_history_scans.
+
+(* ... pruned filtered scans equal unpruned ones, ... *)
+Theorem C11_handles_history_filter : forall (conv : atype -> pyval -> option pyval) (X : value -> value -> bool) (ts : ischema) (xs : list hevent) (fs : list fexpr),
+  NoDup (map fname (sfields ts)) -> NoDup (map fid (sfields ts)) -> conv_kinds conv ->
+  let w := hrun conv (init (Some ts)) xs in
+  filtered_scan X fs w = Some (filter (row_selected X fs) (map vrow (flat_map df_rows (current w)))).
+Proof. exact handles_filter. Qed.
+Print Assumptions C11_handles_history_filter.
+
+(* ... and (under conv_sound, as C11_exact_partial) the full scan returns exactly canon of every accepted record. *)
+Theorem C11_handles_exact_partial : forall (rnd32 : Q -> num) (conv : atype -> pyval -> option pyval),
+  conv_sound rnd32 conv ->
+  forall (ts : ischema) (xs : list hevent),
+  full_scan (hrun conv (init (Some ts)) xs) = Some (expected rnd32 conv ts (init (Some ts)) (appends xs)).
+Proof. exact handles_exact. Qed.
+Print Assumptions C11_handles_exact_partial.
+
+(* Explicit transactions through handles of any provenance: scans keep working. *)
+Theorem C11_handles_tx_history_scans : forall (conv : atype -> pyval -> option pyval) (ts : ischema) (xs : list thevent),
+  scan_ok (current (thrun conv (init (Some ts)) xs)) = true /\ full_scan (thrun conv (init (Some ts)) xs) <> None.
+Proof. exact handles_tx_history_scans. Qed.
+Print Assumptions C11_handles_tx_history_scans.
+
 (* ---- Non-vacuity: a concrete table {a: long required (id 1); b: float optional (id 2)}, a concrete
    conversion oracle satisfying conv_sound and conv_kinds, and a history in which an identical
    argument under another schema id is accepted through a reused handle, a reordered one, a renumbered
@@ -258,4 +325,30 @@ Example C11_tx_nonvacuous :
   /\ map (map df_id) (w_snaps (run_txs ex_conv (init (Some ex_ts)) [ex_tx1; ex_tx2])) = [[51; 52; 0]]
   /\ full_scan (run_txs ex_conv (init (Some ex_ts)) [ex_tx1; ex_tx2])
      = Some [ [(0, PV (VInt 51)); (1, PV VNull)]; [(0, PV (VInt 52)); (1, PV VNull)]; [(0, PV (VInt 7)); (1, PV VNull)] ].
+Proof. vm_compute. repeat split. Qed.
+
+(* Non-vacuity for handle provenance.  ex_narrow is the table's schema with b narrowed-by-name only: the SAME
+   schema_id, b retyped float -> double and the columns reordered.  (1) Handle 0 is re-obtained by
+   create_table(path, schema=ex_narrow) after one append; the schema-less append that follows is accepted, writes
+   the table's layout, and the scan returns both rows.  (2) The hypothesis is needed: were the opening code to
+   derive a layout from its argument (`open_with [OADerive SrcArg]`, an UNSAFE action list), the same history would
+   write a file with the foreign layout and the full scan would raise. *)
+Definition ex_narrow : ischema :=
+  {| sid := 1; sstring := 0; sfields :=
+     [ {| fid := 2; fname := 1; ftype := T_double; fspell := 0; freq := false |};
+       {| fid := 1; fname := 0; ftype := T_long; fspell := 0; freq := true |} ] |}.
+Definition ex_app (z : Z) : event :=
+  {| e_handle := 0; e_arg := None; e_recs := [ex_rec (PV (VInt z)) (PV (VFlt (Fin (1 # 2))))]; e_commit_ok := true |}.
+Definition ex_hhistory : list hevent :=
+  [HOpen 0 OLoad; HAppend (ex_app 7); HOpen 0 (OCreate (Some ex_narrow)); HOpen 5 (OCtor (Some ex_narrow)); HAppend (ex_app 8)].
+
+Example C11_handles_nonvacuous :
+  houtcomes ex_conv (init (Some ex_ts)) ex_hhistory = [Accepted; Accepted]
+  /\ full_scan (hrun ex_conv (init (Some ex_ts)) ex_hhistory)
+     = Some [ [(0, PV (VInt 7)); (1, PV (VFlt (Fin (1 # 2))))]; [(0, PV (VInt 8)); (1, PV (VFlt (Fin (1 # 2))))] ]
+  /\ safe_action (OADerive SrcArg) = false
+  /\ (let w1 := fst (step ex_conv (init (Some ex_ts)) (ex_app 7)) in
+      let w2 := fst (step ex_conv (open_with [OADerive SrcArg] w1 0 (Some ex_narrow)) (ex_app 8)) in
+      snd (step ex_conv (open_with [OADerive SrcArg] w1 0 (Some ex_narrow)) (ex_app 8)) = Accepted
+      /\ scan_ok (current w2) = false /\ full_scan w2 = None).
 Proof. vm_compute. repeat split. Qed.
